@@ -10,7 +10,7 @@ from harness.framework import Suite
 
 PID = "C18"
 LEAN_MODS = ["SwcVerif.Props.C18", "SwcVerif.Props.C05", "SwcVerif.Props.C18Gen"]
-TRANSLATE_ALGO = ["AlgoDsu", "AlgoCheckers"]   # Gen/AlgoDsu.lean, Gen/AlgoCheckers.lean are regenerated from swcgeom/utils/dsu.py, swc_utils/base.py::get_dsu and swc_utils/checker.py::has_cyclic on every run
+TRANSLATE_ALGO = ["AlgoDsu", "AlgoCheckers"]   # Gen/AlgoDsu.lean, Gen/AlgoCheckers.lean are regenerated from swcgeom/utils/dsu.py, swc_utils/base.py::get_dsu and swc_utils/checker.py::has_cyclic / is_bifurcate on every run
 DRIVER_FILES = ["SwcVerif/Model/AlgoRunDsu.lean"]
 THEOREMS = [
     "C18.dsu_refines_partition", "C18.runOps_cons", "C18.invalid_rejected", "C18.hasCyclic_spec", "C18.isBifurcate_correct",
@@ -21,6 +21,7 @@ THEOREMS = [
     "RefineDsu.script_refines", "RefineDsu.script_refines_init", "C18.generated_dsu_refines_partition",
     "RefineCheckers.getDsu_refines", "C18.generated_getDsu_eq_model", "C18.generated_getDsu_total",
     "RefineCheckers.hasCyclic_refines", "C18.generated_hasCyclic_spec",
+    "RefineCheckers.isBifurcate_refines", "C18.generated_isBifurcate_eq_model", "RefineCheckers.isSorted_refines",
 ]
 TRUSTED = ["hand-written models Model/Dsu.lean of DisjointSetUnion, has_cyclic, is_bifurcate, get_dsu / is_single_root, mark_roots_as_somas_, "
            "link_roots_to_nearest_ (tied by the c18.* correspondence suites: union/find scripts, ALL parent tables with n ≤ 5, random larger ones, multi-root files)"]
@@ -232,7 +233,8 @@ class Checkers(Suite):
         tf = lambda b: "T" if b else "F"
         out = [("singleroot " + a, tf(res["single_root"])), ("getdsu " + a, gen.ints(res["get_dsu"])),
                ("ggetdsu " + a, gen.ints(res["get_dsu"])),     # the definition generated from get_dsu on this run (translator cross-check)
-               ("issorted " + a, str(res["sorted"])), ("bifurcate excl=1 " + a, tf(res["bif1"])), ("bifurcate excl=0 " + a, tf(res["bif0"]))]
+               ("issorted " + a, str(res["sorted"])), ("bifurcate excl=1 " + a, tf(res["bif1"])), ("bifurcate excl=0 " + a, tf(res["bif0"])),
+               ("gbifurcate excl=1 " + a, tf(res["bif1"])), ("gbifurcate excl=0 " + a, tf(res["bif0"]))]     # generated from is_bifurcate on this run
         if "cyclic" in res:
             out.append(("hascyclic " + a, tf(res["cyclic"])))
             out.append(("ghascyclic " + a, tf(res["cyclic"])))     # the definition generated from has_cyclic on this run
